@@ -860,6 +860,7 @@ package machine
 // against the same clauses above).
 //@ func (rr RelationsResolver) TargetStates(t *Transition, calledStates, index S) (ret S)
 //@   trusted interface contract; DefaultRelationsResolver.TargetStates is verified against these clauses
+//@   ghostset resolved := ghost.resolved + 1
 //@   ensures nodup:   nodup(ret)
 //@   ensures defined: forall x string :: mem(ret, x) ==> has(t.Machine.schema, x)
 //@   ensures remove_excludes: (forall x string :: mem(calledStates, x) ==> Uncalled(t, index, x)) ==> (forall x string :: mem(ret, x) ==> Uncalled(t, index, x))
@@ -973,8 +974,12 @@ package machine
 //@   ensures  def:   seqeq(r, m.stateNames)
 //@   ensures  cache: seqeq(m.stateNamesExport, m.stateNames)
 //@   ensures  locks: unlocked(m.schemaMx)
+// Only a mutation that adds exactly one of the health states is "health-related"
+// (and does not trigger auto states).
 //@ func (t *Transition) IsHealth() (r bool)
-//@   trusted inspects the called states for the Healthcheck / Heartbeat names
+//@   props C07
+//@   requires nn:  t.Mutation != nil && t.Mutation.cacheCalled != nil
+//@   ensures  def: r <==> (len(*t.Mutation.cacheCalled) == 1 && t.Mutation.Type == MutationAdd && ((*t.Mutation.cacheCalled)[0] == "Healthcheck" || (*t.Mutation.cacheCalled)[0] == "Heartbeat"))
 
 //@ func (m *Machine) IsTime(t Time, states S) (r bool)
 //@   props C01 C20 C12
@@ -1020,7 +1025,7 @@ package machine
 //@   requires room:  forall s string :: m.clock[s] <= MaxU64 - 4
 //@   requires start: ghost.tStart == 0 && ghost.tFinals == 0 && ghost.tEnd == 0
 //@   requires tracers: forall i int :: 0 <= i && i < len(m.tracers) ==> m.tracers[i] != nil
-//@   assigns  m.t, m.tDbg, Machine.logEntries, DefaultRelationsResolver.Transition, DefaultRelationsResolver.Machine, DefaultRelationsResolver.Index, DefaultRelationsResolver.statesBefore, ghost.tInit
+//@   assigns  m.t, m.tDbg, Machine.logEntries, DefaultRelationsResolver.Transition, DefaultRelationsResolver.Machine, DefaultRelationsResolver.Index, DefaultRelationsResolver.statesBefore, ghost.tInit, ghost.resolved
 //@   ensures  fresh:  t != nil && fresh(t) && t.Machine == m && t.Mutation == mut && m.t == t
 //@   ensures  before: len(t.TimeBefore) == len(m.stateNames) && (forall i int :: 0 <= i && i < len(t.TimeBefore) ==> t.TimeBefore[i] == m.clock[m.stateNames[i]])
 //@   ensures  tx:     TxInv(t) && TargetOK(t)
@@ -1057,6 +1062,8 @@ package machine
 //@   ensures  ctx_complete:  ghost.faults == old(ghost.faults) && !old(t.Mutation.IsAuto) && !t.Machine.disposing ==>
 //@                (forall s string :: t.Machine.clock[s] != old(t.Machine.clock[s]) ==> mem(t.cacheActivated, s) || mem(t.cacheDeactivated, s))
 //@   ensures  negotiation_fault: res == Canceled && ghost.faults == 0 && !old(t.Mutation.IsAuto) && !t.Machine.disposing ==> mapeq(t.Machine.clock, old(t.Machine.clock)) && seqeq(t.Machine.activeStates, old(t.Machine.activeStates))
+//@   ensures  auto_reresolved: old(t.Mutation.IsAuto) && !old(t.Mutation.IsCheck) ==> ghost.resolved == old(ghost.resolved) + 1
+//@   ensures  manual_resolved_once: !old(t.Mutation.IsAuto) ==> ghost.resolved == old(ghost.resolved)
 //@   ensures  traced_start:  t.Machine.disposed || ghost.tStart == len(t.Machine.tracers)
 //@   ensures  traced_end:    t.Machine.disposed || ghost.tEnd == len(t.Machine.tracers)
 //@   ensures  traced_finals: ghost.tFinals == 0 || t.Machine.disposed || ghost.tFinals == len(t.Machine.tracers)
